@@ -15,6 +15,7 @@ import (
 	"github.com/plgd-dev/go-coap/v3/net/responsewriter"
 	"hash/crc64"
 	"math/rand"
+	"strings"
 	"sync"
 	"sync/atomic"
 	"testing"
@@ -647,6 +648,20 @@ func TestRun(t *testing.T) {
 	rec := vr.New("C03", "histories: 1..32 (quick) / 1..128 (thorough) callers released together on one real udp (in-memory session) or tcp (scripted net.Conn) connection, block-wise on/off, receive-queue sizes 0/1/16, tokens {library-generated 8-byte, caller-chosen 1..8 bytes, shared 5-byte prefix, zero-prefixed families that differ only in length}; the scripted peer answers piggybacked / piggybacked twice / empty ACK + separate CON or NON / separate twice, holds answers back and releases them permuted; crossed-acks policy (datagram): the response of a held request travels in the ACK of a later request, which is itself answered separately; equal-token races from a barrier; 7-byte vs CRC-64-colliding 8-byte token with a late response to a cancelled request. Distinct = distinct history tuples (transport, block-wise, queue, callers, token mode, PRNG policy stream).")
 	defer rec.Flush(true)
 	seed := vr.Seed()
+	// the pool's lifecycle tracker runs along: a response that is recycled while its caller still holds it (released
+	// twice, written after release) is how one response ends up with two callers; the tracker quarantines a double
+	// release, so the run survives to report it
+	pool.VerifTrackerEnable(true)
+	defer pool.VerifTrackerEnable(false)
+	defer func() {
+		for _, r := range pool.VerifTrackerReports() {
+			first := r
+			if i := strings.IndexAny(r, ":\n"); i > 0 {
+				first = r[:i]
+			}
+			rec.Violation("C03/pool/"+strings.TrimSpace(strings.Split(first, " (")[0]), r, nil)
+		}
+	}()
 	rnd := rand.New(rand.NewSource(seed))
 	var cases []ccase
 	maxCallers := vr.Scale(32, 128)
